@@ -136,10 +136,28 @@ class RefConn:
         self.last: Optional[rc.Exchange] = None  # the exchange consumed by the last completed verify
 
 
+import concurrent.futures as _cf
+
+
+class _InlineExecutor(_cf.ThreadPoolExecutor):
+    """run_in_executor jobs (the state save) run to completion at the moment they are scheduled."""
+
+    def submit(self, fn, /, *args, **kwargs):
+        f: _cf.Future = _cf.Future()
+        try:
+            f.set_result(fn(*args, **kwargs))
+        except BaseException as ex:  # noqa: BLE001
+            f.set_exception(ex)
+        return f
+
+
 class World:
     """One accessory (real AccessoryDriver + State) with any number of real protocol objects."""
 
-    def __init__(self, rng):
+    def __init__(self, rng, persist_file: Optional[str] = None):
+        """persist_file=None: saving is stubbed out (state lives in memory only).  With a path the real
+        AccessoryDriver.persist()/load() are used (an existing file is loaded: a restart) and saves that
+        async_persist hands to the executor are carried out at once."""
         import pyhap.accessory as accessory
         import pyhap.accessory_driver as accessory_driver
         import pyhap.hap_protocol as hap_protocol
@@ -147,6 +165,7 @@ class World:
         import time as _time
 
         self.rng = rng
+        self.persist_file = persist_file
         self.clock_offset = 0.0  # virtual time: op "T" advances every clock the accessory can read
         real_mono, real_time = _time.monotonic, _time.time
         self._patches = [
@@ -156,18 +175,23 @@ class World:
             patch("time.monotonic", lambda: real_mono() + self.clock_offset),
             patch("time.time", lambda: real_time() + self.clock_offset),
         ]
+        if persist_file is not None:
+            del self._patches[1]
         for p in self._patches:
             p.start()
         self.loop = asyncio.new_event_loop()
         asyncio.set_event_loop(self.loop)
+        if persist_file is not None:
+            self.loop.set_default_executor(_InlineExecutor())
         import pyhap.loader as loader
 
         self.driver = accessory_driver.AccessoryDriver(
-            loop=self.loop, persist_file="/tmp/verif-unused.state", loader=loader.get_loader()
+            loop=self.loop, persist_file=persist_file or "/tmp/verif-unused.state", loader=loader.get_loader()
         )
         self.driver.add_accessory(accessory.Accessory(self.driver, "Acc"))
         self.hap_protocol = hap_protocol
-        self.connections: Dict[Any, Any] = {}
+        # the registry the real server would hand to its protocol objects
+        self.connections: Dict[Any, Any] = self.driver.http_server.connections
         self.protos: Dict[int, Any] = {}
         self.transports: Dict[int, FakeTransport] = {}
         self.rconn: Dict[int, RefConn] = {}
